@@ -7,6 +7,9 @@ package pipeline
 func (e *Event) VerifSetKind(k int) { e.kind = Kind(k) }
 func (e *Event) VerifKind() int     { return int(e.kind) }
 
+// VerifStreamID is the identity of the event's stream as it appears in trace labels (0: none).
+func (e *Event) VerifStreamID() int64 { return verifID(e.stream) }
+
 // VerifEvents returns the events of a batch including child-parent ones (ForEach skips those).
 func (b *Batch) VerifEvents() []*Event { return b.events }
 func (b *Batch) VerifSeq() int64       { return b.seq }
